@@ -132,6 +132,7 @@ func vmRun(fn string, canary int) HarnessRun {
 }
 
 const v2Pkg = ledgerMod + "/internal/api/v2"
+const compilerPkg = ledgerMod + "/internal/machine/script/compiler"
 const v1Pkg = ledgerMod + "/internal/api/v1"
 
 const apiPkg = ledgerMod + "/internal/api"
@@ -391,9 +392,10 @@ var specs = map[string]*CheckSpec{
 		Rule:   "differential: real compiler (native) + real VM (symbolic) against the reference semantics; per (source,destination,asset) sums compared by the solver on every path; compile acceptance compared with the language's static rules",
 	},
 	"C12": {
-		ID: "C12", Patterns: []string{vmPkg}, NeedShapes: true, NeedHelper: true,
+		ID: "C12", Patterns: []string{vmPkg, compilerPkg}, NeedShapes: true, NeedHelper: true,
 		Runs: []HarnessRun{
 			vmRun("ZZ_C12", 3),
+			{Pkg: compilerPkg, Dir: "internal/machine/script/compiler", Mod: "ledger", Fn: "ZZ_C12Alloc", Shapes: countShapes(compilerPkg, "ZZ_C12AllocN"), Cfg: vmCfg, Desc: harnessDesc(compilerPkg, "ZZ_C12AllocDesc", "resource table step:"), CanaryShapes: []int{0, 3}},
 			{Pkg: vmPkg, Dir: "internal/machine/vm", Mod: "ledger", Fn: "ZZ_C12Odd", Shapes: countShapes(vmPkg, "ZZ_C12OddN"), Cfg: vmCfg, Desc: plainDesc("odd-but-valid program"), CanaryShapes: []int{2, 13}},
 		},
 		Bounds: numgenBounds, Assumptions: append([]string{"arbitrary byte strings into the ANTLR lexer/parser are outside the claim (DESIGN §6)"}, vmStubs...), Encoded: vmEncoded,
